@@ -185,7 +185,7 @@ func (hourEngine) Run(ctx *fw.Ctx, cs any) {
 			r.xid++
 			typ := []byte{1, 3, 5, 6}[r.rng.Intn(4)]
 			msg := pkt.Msg6(typ, r.xid, []pkt.Opt6{pkt.O6(pkt.OptClientID6, r.duids[st.who]), pkt.IAPD(1, 0, 0, sub)})
-			r.exchange(msg, fmt.Sprintf("[one hour later] c%d type=%d %s", st.who, typ, st.kind))
+			r.exchange(msg, fmt.Sprintf("[%s later] c%d type=%d %s", wait, st.who, typ, st.kind))
 			ctx.Count("prefixhour.second_history."+st.kind, 1)
 		}
 		for i := 0; i < 12+r.rng.Intn(12); i++ {
@@ -194,7 +194,7 @@ func (hourEngine) Run(ctx *fw.Ctx, cs any) {
 				ci = r.rng.Intn(old)
 			}
 			data, desc := r.buildMsg(ci, nil)
-			r.exchange(data, "[one hour later] "+desc)
+			r.exchange(data, fmt.Sprintf("[%s later] %s", wait, desc))
 		}
 		ctx.Count("prefixhour.instances", 1)
 		ctx.Nontrivial("C08", fmt.Sprintf("hour/%d/%d", c.Seed, si))
